@@ -45,7 +45,7 @@ pub fn prop_tag(prop: &str) -> u64 {
 }
 
 fn encode_trailer(proto: Proto) -> Vec<u8> {
-    encode_value(proto, &crate::eval::trailer_tv(), false).out
+    encode_value(proto, &crate::eval::trailer_tv(), Style::default()).out
 }
 
 fn pick_proto(r: &mut Rng) -> Proto {
@@ -63,7 +63,7 @@ pub struct Mix {
 pub fn gen_base(w: &World, r: &mut Rng, mix: Mix, proto: Option<Proto>) -> Base {
     let proto = proto.unwrap_or_else(|| pick_proto(r));
     let knobs = Knobs::swarm(r);
-    let long_form = r.chance(1, 8);
+    let long_form = Style::new(r.chance(1, 8), r.below(14));
     let total = mix.gen + mix.prim + mix.envelope;
     let x = r.below(total);
     if x < mix.gen {
@@ -84,7 +84,7 @@ pub fn gen_base(w: &World, r: &mut Rng, mix: Mix, proto: Option<Proto>) -> Base 
             let name_len = *r.pick(&[0usize, 4, 15, 16, 40]);
             let name: Vec<u8> = (0..name_len).map(|_| b'a' + r.below(26) as u8).collect();
             let mut e = Enc::new(proto);
-            e.long_form = long_form;
+            e.style(long_form);
             e.message_begin(&name, r.range(1, 4) as u8, r.next() as i32);
             e.value(&tv);
             return Base { proto, level: Level::Gen(format!("call::{}", g.name)), bytes: e.out, spans: e.spans, note: format!("call[{}] {}", name_len, tv.brief(&mut b)), tv: Some(tv), conforming: false };
@@ -111,7 +111,7 @@ pub fn gen_base(w: &World, r: &mut Rng, mix: Mix, proto: Option<Proto>) -> Base 
         let mut cx = GenCtx::new(r, knobs);
         let tv = cx.any_of_type(T_STRUCT, 1);
         let mut e = Enc::new(proto);
-        e.long_form = long_form;
+        e.style(long_form);
         e.message_begin(&name, mtype, seq);
         e.value(&tv);
         let mut b = 40;
@@ -291,7 +291,7 @@ pub fn unit_c07(w: &World, seed: u64, unit: u64, tier: Tier) -> Vec<Case> {
     if flavour < 6 {
         // an arbitrary value of an arbitrary wire type
         let knobs = Knobs::swarm(&mut r);
-        let long_form = r.chance(1, 8);
+        let long_form = Style::new(r.chance(1, 8), r.below(14));
         let mut cx = GenCtx::new(&mut r, knobs);
         let t = cx.any_type();
         let tv = cx.any_of_type(t, 1);
@@ -380,7 +380,7 @@ pub fn unit_c07(w: &World, seed: u64, unit: u64, tier: Tier) -> Vec<Case> {
             }
             let tv = if r.chance(1, 2) { struct_chain(d, r.range(1, 20) as i16) } else { container_chain(&mut r, d) };
             debug_assert_eq!(tv.depth(), d);
-            let e = encode_value(proto, &tv, false);
+            let e = encode_value(proto, &tv, Style::default());
             let len = e.out.len();
             let mut vb = e.out.clone();
             vb.extend_from_slice(&trailer);
@@ -399,8 +399,8 @@ pub fn unit_c07(w: &World, seed: u64, unit: u64, tier: Tier) -> Vec<Case> {
             // through the unchecked reader's iterative skipper as an unknown field
             if proto == Proto::Binary {
                 let st = TV::Struct(vec![(5, tv.clone()), (6, TV::I64(77))]);
-                let se = encode_value(proto, &st, false);
-                let xlen = encoded_len(proto, &tv, false);
+                let se = encode_value(proto, &st, Style::default());
+                let xlen = encoded_len(proto, &tv, Style::default());
                 let mut c = mk_case(prop, &base, unit);
                 c.level = Level::SkipUnchecked;
                 c.valid_len = Some(se.out.len());
@@ -436,7 +436,7 @@ pub fn unit_c07(w: &World, seed: u64, unit: u64, tier: Tier) -> Vec<Case> {
 
 /// Length of `v` as it appears as a field value (compact bool fields carry
 /// their value in the header and occupy no bytes of their own).
-fn encoded_len_as_field_value(proto: Proto, v: &TV, long_form: bool) -> usize {
+fn encoded_len_as_field_value(proto: Proto, v: &TV, long_form: Style) -> usize {
     if proto == Proto::Compact && matches!(v, TV::Bool(_)) {
         0
     } else {
